@@ -32,6 +32,7 @@ Inductive expr :=
 | ESubQ (q : query)
 | EInP (neg : bool) (a : expr) (k : nat)         (* a IN :Result(k) *)
 | EParam (k : nat)                               (* :Result(k) as a scalar *)
+| EVar (c : name)                                (* '$var[c]': the value bound by a MapReduceStep *)
 with query :=
 | QSel (dist agg : bool) (targets : list target) (frm : option from) (wh : option expr)
        (group : list expr) (having : option expr) (order : list (expr * (bool * bool)))
@@ -50,7 +51,8 @@ with target :=
 Record ctx := mkCtx { c_db : list (list name * (list name * rel));
                       c_prefix : list name;
                       c_res : list frame;
-                      c_ctes : list (name * frame) }.
+                      c_ctes : list (name * frame);
+                      c_vars : list (name * val) }.
 
 Fixpoint names_eqb (a b : list name) : bool :=
   match a, b with
@@ -223,6 +225,9 @@ Fixpoint eval_e (f : nat) (cx : ctx) (sch : schema) (rw : row) (grp : option rel
         | Some fr => match snd fr with [] => VNull | r :: _ => hd VErr r end
         | None => VErr
         end
+    | EVar c =>
+        (fix look (l : list (name * val)) : val :=
+           match l with [] => VErr | (n, v) :: r => if Pos.eqb n c then v else look r end) (c_vars cx)
     end
   end
 with eval_q (f : nat) (cx : ctx) (q : query) {struct f} : frame :=
@@ -236,7 +241,7 @@ with eval_q (f : nat) (cx : ctx) (q : query) {struct f} : frame :=
         (fst fa, if all then snd fa ++ snd fb else distinct (snd fa ++ snd fb))
     | QWith ctes q' =>
         let cx' := fold_left (fun c nq => mkCtx (c_db c) (c_prefix c) (c_res c)
-                                                ((fst nq, eval_q f' c (snd nq)) :: c_ctes c)) ctes cx in
+                                                ((fst nq, eval_q f' c (snd nq)) :: c_ctes c) (c_vars c)) ctes cx in
         eval_q f' cx' q'
     | QSel dist ag targets frm wh group having order limit offset =>
         let src := match frm with Some fr => eval_f f' cx fr | None => ([], [[]]) end in
@@ -316,27 +321,46 @@ Inductive pstep :=
 | PUnion (l r : nat) (all : bool)
 | PProject (k : nat) (ts : list target)
 | PLimit (k : nat) (limit offset : option nat)
-| PFilter (k : nat) (e : expr).
+| PFilter (k : nat) (e : expr)
+| PMulti (steps : list pstep)                   (* MultipleSteps, reduce = union: the results one after another *)
+| PMapReduce (k : nat) (s : pstep).             (* MapReduceStep: s once per row of result k, '$var[col]' bound to its values *)
 
-Definition exec_step (fuel : nat) (db : list (list name * (list name * rel))) (res : list frame) (s : pstep) : frame :=
-  match s with
-  | PFetch integ q => eval_q fuel (mkCtx db integ res []) q
-  | PEval q => eval_q fuel (mkCtx db [] res []) q
-  | PJoin k l r on => eval_f fuel (mkCtx db [] res []) (FJoin k (FRes l None) (FRes r None) on)
-  | PUnion l r all =>
-      match nth_error res l, nth_error res r with
-      | Some a, Some b => (fst a, if all then snd a ++ snd b else distinct (snd a ++ snd b))
-      | _, _ => err_frame
-      end
-  | PProject k ts => eval_q fuel (mkCtx db [] res [])
-                       (QSel false false ts (Some (FRes k None)) None [] None [] None None)
-  | PLimit k lim off => match nth_error res k with Some a => (fst a, take_drop lim off (snd a)) | None => err_frame end
-  | PFilter k e => eval_q fuel (mkCtx db [] res [])
-                     (QSel false false [TStar None] (Some (FRes k None)) (Some e) [] None [] None None)
+Fixpoint exec_step (fuel : nat) (db : list (list name * (list name * rel))) (res : list frame)
+         (vars : list (name * val)) (s : pstep) {struct fuel} : frame :=
+  match fuel with
+  | O => err_frame
+  | S f' =>
+    match s with
+    | PFetch integ q => eval_q fuel (mkCtx db integ res [] vars) q
+    | PEval q => eval_q fuel (mkCtx db [] res [] vars) q
+    | PJoin k l r on => eval_f fuel (mkCtx db [] res [] vars) (FJoin k (FRes l None) (FRes r None) on)
+    | PUnion l r all =>
+        match nth_error res l, nth_error res r with
+        | Some a, Some b => (fst a, if all then snd a ++ snd b else distinct (snd a ++ snd b))
+        | _, _ => err_frame
+        end
+    | PProject k ts => eval_q fuel (mkCtx db [] res [] vars)
+                         (QSel false false ts (Some (FRes k None)) None [] None [] None None)
+    | PLimit k lim off => match nth_error res k with Some a => (fst a, take_drop lim off (snd a)) | None => err_frame end
+    | PFilter k e => eval_q fuel (mkCtx db [] res [] vars)
+                       (QSel false false [TStar None] (Some (FRes k None)) (Some e) [] None [] None None)
+    | PMulti steps =>
+        let frs := map (exec_step f' db res vars) steps in
+        if existsb frame_err frs then err_frame else
+        (match frs with fr :: _ => fst fr | [] => [] end, flat_map snd frs)
+    | PMapReduce k st =>
+        match nth_error res k with
+        | Some (sch, rows) =>
+            let frs := map (fun r => exec_step f' db res (combine (map snd sch) r ++ vars) st) rows in
+            if existsb frame_err frs then err_frame else
+            (match frs with fr :: _ => fst fr | [] => [] end, flat_map snd frs)
+        | None => err_frame
+        end
+    end
   end.
 Definition exec_plan (fuel : nat) db (steps : list pstep) : frame :=
-  last (fold_left (fun res s => res ++ [exec_step fuel db res s]) steps []) err_frame.
-Definition eval_top (fuel : nat) db (q : query) : frame := eval_q fuel (mkCtx db [] [] []) q.
+  last (fold_left (fun res s => res ++ [exec_step fuel db res [] s]) steps []) err_frame.
+Definition eval_top (fuel : nat) db (q : query) : frame := eval_q fuel (mkCtx db [] [] [] []) q.
 
 (* ---------- when is an answer acceptable ---------- *)
 (* full: the rows of the query without its LIMIT / OFFSET; keys: positions of the ORDER BY keys in
